@@ -1,10 +1,12 @@
 (** * SafeColl: part B of the safety layer (the collector activations): definitions.
 
-    - [nofuel], [Q] (the Buf-side precondition threaded through the combined induction of
-      SafeFinal.v), [nfspec].
-    - [strip] / [FrM]: part A's frame relation [Fr] "modulo list marks and tracing counters";
-      inside a collection marks come and go, so the two inner passes are specified with [FrM]
-      and [Fr] is recovered at the [KCollectOnce] level.
+    - [nofuel], [Q], [nfspec] come from SafeCollQ.v ([Q K A c m := BufStep.PreA K A c m /\ nofuel m]
+      is the Buf-side precondition threaded through the combined induction of SafeFinal.v).
+    - [strip] / [FrM]: part A's frame relation [Fr] "modulo list marks, tracing counters and the
+      collecting flag": [FrM E m m' := Fr K E None (strip m) (strip m')].  Inside a collection marks
+      come and go and the dying set grows, so all five inner collector calls are specified with
+      [FrM]; [Fr] itself is recovered at the [KCollect] level ([SafeCollFr.Fr_unstrip]), where
+      [st_collecting] is false before and after and no allocated object is list-marked.
     - [PreC] / [PostC]: the specification of the five inner collector calls. *)
 From Coq Require Import NArith Bool List Lia.
 From stdpp Require Import base list option.
